@@ -7,6 +7,7 @@ import Driver.OpsJws
 import Driver.OpsClaims
 import Driver.OpsKeys
 import Driver.OpsJwe
+import Driver.OpsShared
 /-!
 Line-protocol driver: one request per line on stdin, one answer per line on stdout.
 `<op> <args…>`; bytes are hex (`-` = empty).  Unknown or malformed requests answer `bad-op`.
@@ -38,6 +39,9 @@ def handle (allToks : List String) : String :=
   | some r => r
   | none =>
   match handleJweEnc toks tbl with
+  | some r => r
+  | none =>
+  match handleShared toks with
   | some r => r
   | none => "bad-op"
 
